@@ -33,11 +33,14 @@ func (v routeVal) String() string {
 	return fmt.Sprintf("cost=%d flags=%d", v.cost, v.flags)
 }
 
+// sameRoute: a is what the daemon lists, b the reference. A route registered with an expiration period
+// must be listed with one, and without one if it has none; the value listed may be the period as
+// registered (this RIB) or what is left of it (NFD's rib/list): anything up to the registered period.
 func sameRoute(a, b routeVal) bool {
 	if a.cost != b.cost || a.flags != b.flags || (a.exp == nil) != (b.exp == nil) {
 		return false
 	}
-	return a.exp == nil || *a.exp == *b.exp
+	return a.exp == nil || *a.exp <= *b.exp
 }
 
 type faceState struct {
